@@ -46,7 +46,7 @@ impl<'s> BitReaderReversed<'s> {
 }
 
 // ---- abstract FSE table + decoder: exactly the contracts Verus unit Q2 proves on the verbatim FSEDecoder bodies, and (for
-// ---- build_decoder) what units F3 (proved) / F2 (assumed, see DESIGN Part II) give ----
+// ---- build_decoder) what unit F2 proves (with F3 for read_probabilities) ----
 #[derive(Copy, Clone)]
 pub struct Entry { pub base_line: u32, pub num_bits: u8, pub symbol: u8 }
 pub struct FSETable {
@@ -68,9 +68,12 @@ impl FSETable {
     }
     #[verifier::external_body]
     pub fn build_decoder(&mut self, source: &[u8], max_log: u8) -> (r: Result<usize, FSETableError>)
+        // contract of FSETable::build_decoder: PROVED in unit F2 (on the verbatim body), ASSUMED wherever the table type is abstract (Q2, HU2V)
+        requires max_log <= 9, source@.len() <= 0x1_0000_0000,
         ensures
             final(self).max_symbol == old(self).max_symbol,
             r matches Ok(n) ==> n <= source@.len() && final(self).table_wf() && final(self).accuracy_log != 0,
+
     { unimplemented!() }
 }
 pub struct FSEDecoder<'table> {
